@@ -293,6 +293,14 @@ class Connection(ExportImport):
             raise ConnectionStateError("Cannot close a connection joined to "
                                        "a transaction")
 
+        if primary:
+            # The secondary connections are closed along with this one:
+            # refuse before anything is done if one of them cannot be.
+            for connection in self.connections.values():
+                if not connection._needs_to_join:
+                    raise ConnectionStateError(
+                        "Cannot close a connection joined to a transaction")
+
         self._cache.incrgc()  # This is a good time to do some GC
 
         # Call the close callbacks.
